@@ -152,8 +152,9 @@ def vals(t, k, json_safe=False):
                 v0 = vals(t[2], 0, json_safe)[0][0]
                 out.append(([(kd[0], v0), (kd[1], v0)], 1))
                 if k >= 2:
+                    ka, kb = (kd[1], kd[-1]) if len(kd) >= 3 else (kd[0], kd[1])      # two distinct keys (bool has only two)
                     for v, dv in vals(t[2], k - 1, json_safe)[1:3]:
-                        out.append(([(kd[1], v0), (kd[-1], v)], 1 + dv))
+                        out.append(([(ka, v0), (kb, v)], 1 + dv))
         return out
     raise ValueError(t)
 
